@@ -77,9 +77,6 @@ def finish(pid, tier, seed, repo, results, bounded, lean, known, wall, meta):
                                   sha256=r["info"]["sha256"], fragment=r.get("fragment"), paths=r.get("n_paths"),
                                   obligations=len(r["obligations"]), inlined_callees=r.get("inlined", []),
                                   moved_from=r["info"].get("moved_from")))
-        if r.get("out_of_reach"):
-            out_of_reach.append(dict(contract=r["contract"], fn=r["fn"], reason=r["out_of_reach"]))
-            continue
         for b in r.get("batteries", []):
             batteries.append(dict(contract=r["contract"], target=b["target"], ok=b["ok"], seconds=b["seconds"]))
             if not b["ok"]:
@@ -95,6 +92,9 @@ def finish(pid, tier, seed, repo, results, bounded, lean, known, wall, meta):
                 else:
                     broken += 1
                     lines.append("CHECKER-BROKEN property=%s battery %s did not run: %s" % (pid, b["target"], str(out_)[:300]))
+        if r.get("out_of_reach"):
+            out_of_reach.append(dict(contract=r["contract"], fn=r["fn"], reason=r["out_of_reach"]))
+            continue
         for o in r["obligations"]:
             n_obl += 1
             solver_s += o.get("seconds", 0)
